@@ -28,6 +28,7 @@ func unify(a, b ctype) (ctype, bool) {
 type checker struct {
 	tables      []Table
 	mixedIntDec bool // some comparison / IN mixes an INT operand with a DECIMAL operand
+	intInDecSubquery bool // INT operand IN (subquery projecting a DECIMAL)
 }
 
 func (c *checker) mix(a, b ctype) {
@@ -139,6 +140,9 @@ func (c *checker) expr(e *Expr, sc []cscope) (ctype, error) {
 		}
 		return tInt, nil
 	case "exists":
+		if b := peel(e.Q); b != nil && b.K == "group" && len(b.Keys) > 0 {
+			return 0, fmt.Errorf("GROUP BY block under EXISTS")
+		}
 		_, err := c.query(e.Q, sc)
 		return tInt, err
 	case "inq":
@@ -157,6 +161,9 @@ func (c *checker) expr(e *Expr, sc []cscope) (ctype, error) {
 			return 0, fmt.Errorf("IN subquery of incompatible type")
 		}
 		c.mix(a, ts[0])
+		if a == tInt && ts[0] == tDec {
+			c.intInDecSubquery = true
+		}
 		return tInt, nil
 	case "scalar":
 		ts, err := c.query(e.Q, sc)
@@ -225,12 +232,23 @@ func (c *checker) query(q *Query, outer []cscope) ([]ctype, error) {
 			return nil, err
 		}
 		all := append(append([]ctype{}, l...), r...)
+		if (q.JK == "left" && q.R.K == "join") || (q.JK == "right" && q.L.K == "join") {
+			// engine limitation: predicates over a null-padded side that is itself a join are pushed below the outer join
+			return nil, fmt.Errorf("outer join whose null-padded side is a join")
+		}
+		if (q.JK == "inner" || q.JK == "cross") && (hasOuterJoin(q.L) || hasOuterJoin(q.R)) {
+			return nil, fmt.Errorf("outer join nested under an inner join")
+		}
 		if q.JK != "cross" {
 			if err := c.cond(q.On, append([]cscope{{types: all}}, outer...)); err != nil {
 				return nil, err
 			}
 			if outerRef(q.On, 1) {
 				return nil, fmt.Errorf("join condition references an enclosing query")
+			}
+			if hasSubquery(q.On) {
+				// engine limitation: subqueries in ON that reference a join sibling fail with "unable to find field"
+				return nil, fmt.Errorf("subquery in a join condition")
 			}
 		}
 		return all, nil
@@ -342,6 +360,11 @@ func (c *checker) query(q *Query, outer []cscope) ([]ctype, error) {
 		}
 		if len(l) != len(r) {
 			return nil, fmt.Errorf("set operation over different widths")
+		}
+		if len(outer) > 0 {
+			// engine limitation: set operations (also as derived tables) inside subquery expressions mis-index rows
+			// ("unable to find field", slice-bounds panics, wrong column)
+			return nil, fmt.Errorf("set operation inside a subquery expression")
 		}
 		if escapesQ(q, 0) {
 			return nil, fmt.Errorf("correlated set operation")
